@@ -208,15 +208,22 @@ type gInfo struct {
 
 const workerMarker = "pkg/generator.(*Scheduler).startWorker"
 
+var (
+	scanMu  sync.Mutex
+	scanBuf = make([]byte, 1<<17)
+)
+
 func scan() []gInfo {
-	buf := make([]byte, 1<<17)
+	scanMu.Lock()
+	defer scanMu.Unlock()
+	var buf []byte
 	for {
-		n := runtime.Stack(buf, true)
-		if n < len(buf) {
-			buf = buf[:n]
+		n := runtime.Stack(scanBuf, true)
+		if n < len(scanBuf) {
+			buf = scanBuf[:n]
 			break
 		}
-		buf = make([]byte, 2*len(buf))
+		scanBuf = make([]byte, 2*len(scanBuf))
 	}
 	var out []gInfo
 	for _, blk := range bytes.Split(buf, []byte("\n\n")) {
@@ -556,11 +563,20 @@ func (r *replay) settle(st kit.V, alt *[]int, withSched bool) (settleResult, Obs
 				r.d.wait, r.key, o, scanWorkers())
 		}
 		spins++
-		if spins < 20 {
+		if spins < 200 {
 			runtime.Gosched()
 		} else {
-			time.Sleep(300 * time.Microsecond)
+			time.Sleep(200 * time.Microsecond)
 		}
+	}
+}
+
+func pause(n *int) {
+	*n++
+	if *n < 200 {
+		runtime.Gosched()
+	} else {
+		time.Sleep(200 * time.Microsecond)
 	}
 }
 
@@ -573,11 +589,16 @@ func (r *replay) boot(readable []int) bool {
 	inc := r.inc
 	go func() { done <- r.rig.Boot(r.d, inc, r.size, readable) }()
 	deadline := time.Now().Add(r.d.wait)
+	bspins := 0
 	for {
 		select {
 		case r.inst = <-done:
 			return true
 		default:
+		}
+		if bspins < 50 {
+			pause(&bspins)
+			continue
 		}
 		// the constructor writes the loaded entries into the channel; if it
 		// loads more than the capacity it blocks forever
@@ -609,7 +630,7 @@ func (r *replay) boot(readable []int) bool {
 		if time.Now().After(deadline) {
 			r.t.Fatalf("verifc39: NewParameterPool did not return within %s", r.d.wait)
 		}
-		time.Sleep(300 * time.Microsecond)
+		pause(&bspins)
 	}
 }
 
@@ -617,7 +638,7 @@ func (r *replay) boot(readable []int) bool {
 func (r *replay) crash() {
 	r.inc.dead.Store(true)
 	deadline := time.Now().Add(r.d.wait)
-	for n := 0; ; n++ {
+	for n := 0; ; {
 		r.d.releaseAllDie()
 		if r.inst != nil && n%16 == 0 {
 			r.inst.Kill()
@@ -637,7 +658,7 @@ func (r *replay) crash() {
 		if time.Now().After(deadline) {
 			r.t.Fatalf("verifc39: goroutines of a crashed incarnation did not terminate: %+v", scan())
 		}
-		time.Sleep(300 * time.Microsecond)
+		pause(&n)
 	}
 	// drain exit notifications
 	for {
